@@ -128,6 +128,10 @@ def RandomKXOR(k, n, m, seed=None, planted_assignments=None, formula_class=CNF):
     non_negative_int(k, 'k')
 
     if seed is not None:
+        if not isinstance(seed, (int, float, str, bytes, bytearray)):
+            # any hashable object is a seed: since python 3.11
+            # random.seed() takes just the types above
+            seed = hash(seed)
         random.seed(seed)
 
     if planted_assignments is None:
